@@ -393,3 +393,19 @@ package car
 //@   call[os.OpenFile#0] assert same_file_no_truncation [C10,C11]: arg0 == path && arg1 == 1089
 //@   call[io.NewOffsetWriter#0] assert at_the_given_offset [C10,C11]: ref(arg0) == ref(out) && arg1 == wrap_s64(offset)
 //@   call[index.WriteTo#0] assert that_index [C10,C11]: ref(arg0) == ref(idx) && ref(arg1) == ref(indexWriter)
+
+// Selective writer entry points (C15): the size announced by NewSelectiveWriter is the header size for exactly
+// [root] plus what the counting pass counted over the same root / selector / options that the writing pass will
+// use; TraverseV1 writes without an index option and returns what WriteV1 wrote.
+
+//@ func NewSelectiveWriter
+//@   let hs, hserr := call[carv1.HeaderSize#0]
+//@   let counted := call[ReadCounter.Size#0]
+//@   call[carv1.HeaderSize#0] assert header_of_this_root_only [C15]: arg0.Version == 1 && len(arg0.Roots) == 1
+//@   call[traverse#0] assert counting_pass_same_dag [C15]: arg0 == ctx && arg2 == root && arg3 == selector
+//@   ensures announced_size [C15]: err == nil ==> hserr == nil && cur(tc).size == wrap_u64(hs + counted) && cur(tc).root == root && cur(tc).selector == selector && cur(tc).ls == ls
+
+//@ func TraverseV1
+//@   let n, c, werr := call[traversalCar.WriteV1#0]
+//@   call[traversalCar.WriteV1#0] assert into_the_given_writer [C15]: ref(arg1) == ref(writer) && arg0.root == root && arg0.selector == selector && arg0.ls == ls && arg0.size == 0
+//@   ensures returns_bytes_written [C15]: result0 == n && err == werr
